@@ -473,7 +473,17 @@ func checkCommentLineForCheckIgnore(
 	ruleID string,
 ) bool {
 	fullIgnorePrefix := commentIgnorePrefix + " " + ruleID
-	return strings.HasPrefix(commentLine, fullIgnorePrefix)
+	if !strings.HasPrefix(commentLine, fullIgnorePrefix) {
+		return false
+	}
+	// The rule ID must match as a whole word: a directive for COMMENT_ENUM_VALUE
+	// must not also suppress COMMENT_ENUM.
+	remainder := commentLine[len(fullIgnorePrefix):]
+	if remainder == "" {
+		return true
+	}
+	next := remainder[0]
+	return !(next == '_' || (next >= 'A' && next <= 'Z') || (next >= 'a' && next <= 'z') || (next >= '0' && next <= '9'))
 }
 
 type lintOptions struct {
